@@ -215,7 +215,20 @@ def rec_sort(cls):
     return _rec_sorts[cls]
 
 
+_opt_sorts = {}
+
+
+def _opt_sort(inner):
+    key = repr(inner)
+    if key not in _opt_sorts:
+        nm = "Opt_" + "".join(ch if ch.isalnum() else "_" for ch in str(sort_of(inner)))
+        _opt_sorts[key] = z3.TupleSort(nm, [B, sort_of(inner)])
+    return _opt_sorts[key]
+
+
 def _default(ty):
+    if isinstance(ty, tuple) and ty[0] in ("opt", "rec", "tuple"):
+        return z3.Const("junk_" + "".join(ch if ch.isalnum() else "_" for ch in str(sort_of(ty))), sort_of(ty))
     if ty == "int":
         return z3.IntVal(0)
     if ty == "bool":
@@ -234,6 +247,8 @@ def sort_of(ty):
         return z3.SeqSort(sort_of(ty[1]))
     if isinstance(ty, tuple) and ty[0] == "rec":
         return rec_sort(ty[1])[0]
+    if isinstance(ty, tuple) and ty[0] == "opt":
+        return _opt_sort(ty[1])[0]
     if isinstance(ty, tuple) and ty[0] == "tuple":
         key = tuple(ty[1])
         if key not in _tuple_sorts:
@@ -258,6 +273,9 @@ def wrap(ty, term):
         _, mk, accs = _tuple_sorts[tuple(ty[1])] if tuple(ty[1]) in _tuple_sorts else (sort_of(ty), None, None)
         _, mk, accs = _tuple_sorts[tuple(ty[1])]
         return VTuple([wrap(t, a(term)) for t, a in zip(ty[1], accs)])
+    if isinstance(ty, tuple) and ty[0] == "opt":
+        srt, mk, accs = _opt_sort(ty[1])
+        return VOpt(accs[0](term), wrap(ty[1], accs[1](term)))
     if isinstance(ty, tuple) and ty[0] == "rec":
         srt, mk, accs = rec_sort(ty[1])
         fields = {}
@@ -298,6 +316,13 @@ def unwrap(ty, v):
         sort_of(ty)
         _, mk, accs = _tuple_sorts[tuple(ty[1])]
         return mk(*[unwrap(t, x) for t, x in zip(ty[1], v.items)])
+    if isinstance(ty, tuple) and ty[0] == "opt":
+        srt, mk, accs = _opt_sort(ty[1])
+        if v is NONE:
+            return mk(z3.BoolVal(True), _default(ty[1]))
+        if isinstance(v, VOpt):
+            return mk(v.isnone, z3.If(v.isnone, _default(ty[1]), unwrap(ty[1], v.val)))
+        return mk(z3.BoolVal(False), unwrap(ty[1], v))
     if isinstance(ty, tuple) and ty[0] == "rec":
         srt, mk, accs = rec_sort(ty[1])
         if isinstance(v, VOpt):
@@ -338,6 +363,8 @@ def type_of(v):
         return ("rec", v.cls)
     if isinstance(v, VOpt) and isinstance(v.val, VObj) and v.val.cls in REC_CLASSES:
         return ("rec", v.val.cls)
+    if isinstance(v, VOpt) and isinstance(v.val, (VInt, VBool, VSeq)):
+        return ("opt", type_of(v.val))
     raise TypeError("type_of %r" % (v,))
 
 
